@@ -72,9 +72,12 @@ def unit_consts(P, u):
     for name, g in u.globals.items():
         init = g.get('init')
         if g.get('const') and isinstance(init, list) and g.get('type', '').startswith('%struct.'):
+            st = u.structs.get(g['type'][len('%struct.'):])
+            offs = [fl[1] for fl in st['fields']] if st and len(st['fields']) == len(init) else None
             for i, v in enumerate(init):
                 try:
-                    out[(name, i)] = _classify_const(int(v), 64)
+                    # keyed by byte offset: that is what a field step of an access path carries
+                    out[(name, offs[i] if offs else i * 8)] = _classify_const(int(v), 64)
                 except (TypeError, ValueError):
                     pass
     stores = defaultdict(list)
@@ -150,6 +153,8 @@ def _spread(k):
     """helper(value, &out0 .. &out{k-1} [, flag]) that unpacks one vector of pixels into k vectors"""
     def h(ex, c, a):
         v = ex.val(a[0])
+        if len(a) > k + 1 and a[k + 1][0] == 'c' and int(a[k + 1][1]) != 0:
+            v = ex.opaque(v)              # the trailing full_alpha flag of the 565 expanders
         for i in range(k):
             _st(ex, ex.val(a[1 + i]), v)
     return h
@@ -189,7 +194,8 @@ def voc_sse2():
     V['unpack_565_128_4x128'] = _spread(4)
     V['pack_565_4x128_128'] = lambda ex, c, a: _all_equal([_ld(ex, ex.val(o)) for o in a[:4]])
     V['pack_565_2packedx128_128'] = V['pack_565_2x128_128'] = lambda ex, c, a: _all_equal([ex.val(o) for o in a[:2]])
-    V['convert_8888_to_0565'] = V['convert_0565_to_8888'] = lambda ex, c, a: ex.val(a[0])
+    V['convert_8888_to_0565'] = V['convert_0565_to_0888'] = lambda ex, c, a: ex.val(a[0])
+    V['convert_0565_to_8888'] = lambda ex, c, a: ex.opaque(ex.val(a[0]))
 
     def cmpeq(ex, c, a):
         x, y = ex.val(a[0]), ex.val(a[1])
@@ -286,7 +292,8 @@ def voc_mmx():
     V['expand_4xpacked565'] = _spread(2)
     V['pack_4x565'] = lambda ex, c, a: _all_equal([ex.val(o) for o in a[:4]])
     V['pack_4xpacked565'] = lambda ex, c, a: _all_equal([ex.val(o) for o in a[:2]])
-    V['convert_8888_to_0565'] = V['convert_0565_to_8888'] = lambda ex, c, a: ex.val(a[0])
+    V['convert_8888_to_0565'] = V['convert_0565_to_0888'] = lambda ex, c, a: ex.val(a[0])
+    V['convert_0565_to_8888'] = lambda ex, c, a: ex.opaque(ex.val(a[0]))
 
     V['pack8888'] = lambda ex, c, a: _all_equal([ex.val(a[0]), ex.val(a[1])])
     ARITY = {'pix_multiply': 2, 'pix_add_mul': 4, 'over': 3, 'in_over': 4, 'expand_alpha': 1, 'negate': 1}
@@ -1263,6 +1270,11 @@ def _info_role(f, o, depth=0, seen=None):
             for q in fl:
                 if q.startswith('pixman_composite_info_t.') and q.endswith('_image'):
                     return {{'src': 's', 'mask': 'm', 'dest': 'd'}[q.split('.')[1][:-6]]}
+        # scanline iterators: iter->bits is the current source row, iter->buffer the scanline being produced
+        if fl and fl[-1] == 'pixman_iter_t.bits':
+            return {'s'}
+        if fl and fl[-1] == 'pixman_iter_t.buffer':
+            return {'d'}
         return {'?'}
     if x.op == 'alloca':
         return {('local', f.name, x.i)}
@@ -1447,3 +1459,55 @@ def r10_composite_bodies(ck, P):
                 ck.ok(R, where)
     ck.r10_skipped = skipped_fns
     ck.note('C02-R10: %d routine/operator combinations analysed; not analysable with the vocabulary: %s' % (analysed, dict(skipped)))
+
+
+def r10f_simd_fetchers(ck, P, rid='C10-R8'):
+    """the SIMD scanline fetchers of alpha-less formats deliver every pixel opaque, in every loop (head, vector body, tail)"""
+    from . import tables
+    R = ck.rule(rid, 'every loop (head, vector body, tail) of the MMX/SSE2 scanline fetchers registered for x8r8g8b8 / r5g6b5 writes the source pixel with its alpha forced to 1: an alpha-less format reads as opaque whichever of the loops handles the pixel', floor=4)
+    names = tables.format_names(P)
+    n = 0; skipped = []
+    for u, g, t in tables.iter_tables(P):
+        if u.name not in ('pixman-mmx.c', 'pixman-sse2.c'):
+            continue
+        voc = voc_sse2() if u.name == 'pixman-sse2.c' else voc_mmx()
+        loops = _loops_of(u)
+        for idx, e in enumerate(t):
+            fn = tables.fname(e['get_scanline'])
+            f = u.functions.get(fn) if fn else None
+            if f is None or 'fetch' not in fn:
+                continue
+            fi = tables.fmt_info(e['format'])
+            if fi['a'] != 0 or fi['type'] == 1:
+                continue                                # formats with alpha (or alpha only): nothing to force
+            want = force_opaque(S)
+            probs = []; nl = 0
+            try:
+                ls = [L for L in loops.get(fn, []) if not any(l2['parent'] == L['header'] for l2 in loops.get(fn, []))]
+                for L in ls:
+                    ex = RExec(P, u, voc, False); ex.loop_header = None; ex.base = {}; ex.solid_syms = set(); ex.mask_bits = False
+                    pre = ex.prefix_states(f, [None, None], L['header'])
+                    ex = RExec(P, u, voc, False); ex.loop_header = L['header']; ex.base = {}; ex.mask_bits = False
+                    ex.init_states = pre
+                    res = ex.run_paths(f, [None, None], region=set(L['blocks']), start=L['header'])
+                    for assum, rv, writes, notes, _m in res:
+                        vals = [v for r, v in writes if r == 'd']
+                        for v in vals:
+                            for a2, got, n2 in _expand_cases(v):
+                                if got is None or not _is_expr(got):
+                                    raise Unknown('a value written is not expressible in the helper vocabulary')
+                                nl += 1
+                                d_ = sympy.expand(got - want)
+                                if not (vanishes(d_.subs(ACH, 0), {}) and vanishes(d_.subs(ALPHA, simultaneous=True), {})):
+                                    probs.append('%s (loop at block %s) writes %s; a %s pixel must be delivered as %s in the colour channels and 1 in alpha' % (fn, L['header'], got, names.get(e['format']), S))
+                if nl == 0:
+                    raise Unknown('no loop writes the scanline')
+            except Unknown as ex_:
+                skipped.append('%s: %s' % (fn, ex_)); continue
+            n += 1; ck.saw(f)
+            if probs:
+                ck.violation(R, fn, 'fetcher body for %s' % names.get(e['format']), probs[0], '%s table %s entry %d' % (u.name, g['name'], idx))
+            else:
+                ck.ok(R, '%s[%d] %s (%s): %d written values, all opaque copies of the source' % (g['name'], idx, fn, names.get(e['format']), nl))
+    if skipped:
+        ck.note('%s not analysed: %s' % (rid, skipped))
